@@ -71,6 +71,9 @@ def run(ctx):
     # ORDER BY answers depend on what the planner believes about operator output order (after seed C02-e = C12-b)
     from rules.c12 import order_claims_rule
     order_claims_rule(ctx, prog, 'C02-R7')
+    # NULLs of an expression above LIMIT .. OFFSET (after seed C02-f, which is seed C14-b again)
+    from rules.c14 import aligned_bitmaps_rule
+    aligned_bitmaps_rule(ctx, prog, 'C02-R8')
     run_r4(ctx, prog)   # three-valued logic in WHERE/ON: a NULL predicate must not read as TRUE (same rule as C14-R6)
     R3 = 'C02-R3'
     ctx.rule(R3, 'SUM on the per-value path (hash/sort aggregation): the combinator applied to (state, value) must skip a NULL '
